@@ -541,7 +541,7 @@ func (P *Program) directMods(fn *ssa.Function) (map[string]bool, []*ssa.Function
 		if c.IsInvoke() {
 			key := IfaceMethodKey(c.Value.Type(), c.Method)
 			if fc := P.contractFor(key); fc != nil && (fc.Trusted || fc.IsIface) {
-				P.contractMods(fc, c, out)
+				P.contractModsSummary(fc, c, out)
 				return
 			}
 			impls := P.implementers(c.Value.Type(), c.Method)
@@ -575,7 +575,7 @@ func (P *Program) directMods(fn *ssa.Function) (map[string]bool, []*ssa.Function
 		}
 		key := FuncKey(callee)
 		if fc := P.contractFor(key); fc != nil && (fc.Trusted || fc.Pure || fc.NoEffects) {
-			P.contractMods(fc, c, out)
+			P.contractModsSummary(fc, c, out)
 			for _, g := range fc.Sets {
 				out["H:"+g.Name] = true
 			}
@@ -616,7 +616,27 @@ func (P *Program) directMods(fn *ssa.Function) (map[string]bool, []*ssa.Function
 	return out, callees
 }
 
+// contractModsSummary is contractMods for the SUMMARY of the calling function (what
+// its own callers can observe): an argument that is an object allocated by the
+// calling function itself is invisible to them - writing it cannot change any object
+// that existed before the call.
+func (P *Program) contractModsSummary(fc *FuncContract, c *ssa.CallCommon, out map[string]bool) {
+	P.contractModsOpt(fc, c, out, true)
+}
+
 func (P *Program) contractMods(fc *FuncContract, c *ssa.CallCommon, out map[string]bool) {
+	P.contractModsOpt(fc, c, out, false)
+}
+
+func isFreshHeapObject(v ssa.Value) bool {
+	if mi, ok := v.(*ssa.MakeInterface); ok {
+		v = mi.X
+	}
+	a, ok := v.(*ssa.Alloc)
+	return ok && a.Heap
+}
+
+func (P *Program) contractModsOpt(fc *FuncContract, c *ssa.CallCommon, out map[string]bool, skipFresh bool) {
 	for _, g := range fc.ModGhost {
 		out["H:"+g] = true
 	}
@@ -627,6 +647,9 @@ func (P *Program) contractMods(fc *FuncContract, c *ssa.CallCommon, out map[stri
 		// positional lookup of the named parameters happens in the executor; here be
 		// conservative: every pointer-typed argument's pointee
 		for _, a := range c.Args {
+			if skipFresh && isFreshHeapObject(a) {
+				continue
+			}
 			pointeeMods(a.Type(), out, 0)
 			// interface-typed argument holding a pointer: look through MakeInterface
 			if mi, ok := a.(*ssa.MakeInterface); ok {
